@@ -34,29 +34,32 @@ Record sv := mksv {
   conns : list Z; failw : list Z;
   cbq : list (Z * list Z);
   drain : bool;                  (* an application disconnect handler is registered *)
+  removed : list Z;              (* removedClients: sessions that ended and whose timeout context the pump has not dropped yet *)
   str : list sev
 }.
 
 Definition sinit (capacity : Z) (drain_ : bool) : sv :=
-  mksv false false false false capacity [] [] [] false 0 None [] [] [] [] [] [] drain_ [].
+  mksv false false false false capacity [] [] [] false 0 None [] [] [] [] [] [] drain_ [] [].
 
 Definition K_DISC := 5.
 Definition mem (c : Z) (l : list Z) : bool := existsb (Z.eqb c) l.
 Definition del (c : Z) (l : list Z) : list Z := filter (fun x => negb (x =? c)) l.
 
-Definition upd_str s x := mksv (running s) (stopping s) (pumpAlive s) (pumpStuck s) (qcap s) (qm s) (pendm s) (ctxm s) (rdy s) (cur s) (curQ s) (reqC s) (readyC s) (timerC s) (conns s) (failw s) (cbq s) (drain s) x.
+Definition upd_str s x := mksv (running s) (stopping s) (pumpAlive s) (pumpStuck s) (qcap s) (qm s) (pendm s) (ctxm s) (rdy s) (cur s) (curQ s) (reqC s) (readyC s) (timerC s) (conns s) (failw s) (cbq s) (drain s) (removed s) x.
 Definition semit s e := upd_str s (e :: str s).
-Definition upd_qm s x := mksv (running s) (stopping s) (pumpAlive s) (pumpStuck s) (qcap s) x (pendm s) (ctxm s) (rdy s) (cur s) (curQ s) (reqC s) (readyC s) (timerC s) (conns s) (failw s) (cbq s) (drain s) (str s).
-Definition upd_pendm s x := mksv (running s) (stopping s) (pumpAlive s) (pumpStuck s) (qcap s) (qm s) x (ctxm s) (rdy s) (cur s) (curQ s) (reqC s) (readyC s) (timerC s) (conns s) (failw s) (cbq s) (drain s) (str s).
-Definition upd_ctxm s x := mksv (running s) (stopping s) (pumpAlive s) (pumpStuck s) (qcap s) (qm s) (pendm s) x (rdy s) (cur s) (curQ s) (reqC s) (readyC s) (timerC s) (conns s) (failw s) (cbq s) (drain s) (str s).
-Definition upd_loc s r c cq := mksv (running s) (stopping s) (pumpAlive s) (pumpStuck s) (qcap s) (qm s) (pendm s) (ctxm s) r c cq (reqC s) (readyC s) (timerC s) (conns s) (failw s) (cbq s) (drain s) (str s).
-Definition upd_reqC s x := mksv (running s) (stopping s) (pumpAlive s) (pumpStuck s) (qcap s) (qm s) (pendm s) (ctxm s) (rdy s) (cur s) (curQ s) x (readyC s) (timerC s) (conns s) (failw s) (cbq s) (drain s) (str s).
-Definition upd_readyC s x := mksv (running s) (stopping s) (pumpAlive s) (pumpStuck s) (qcap s) (qm s) (pendm s) (ctxm s) (rdy s) (cur s) (curQ s) (reqC s) x (timerC s) (conns s) (failw s) (cbq s) (drain s) (str s).
-Definition upd_timerC s x := mksv (running s) (stopping s) (pumpAlive s) (pumpStuck s) (qcap s) (qm s) (pendm s) (ctxm s) (rdy s) (cur s) (curQ s) (reqC s) (readyC s) x (conns s) (failw s) (cbq s) (drain s) (str s).
-Definition upd_conns s x := mksv (running s) (stopping s) (pumpAlive s) (pumpStuck s) (qcap s) (qm s) (pendm s) (ctxm s) (rdy s) (cur s) (curQ s) (reqC s) (readyC s) (timerC s) x (failw s) (cbq s) (drain s) (str s).
-Definition upd_failw s x := mksv (running s) (stopping s) (pumpAlive s) (pumpStuck s) (qcap s) (qm s) (pendm s) (ctxm s) (rdy s) (cur s) (curQ s) (reqC s) (readyC s) (timerC s) (conns s) x (cbq s) (drain s) (str s).
-Definition upd_cbq s x := mksv (running s) (stopping s) (pumpAlive s) (pumpStuck s) (qcap s) (qm s) (pendm s) (ctxm s) (rdy s) (cur s) (curQ s) (reqC s) (readyC s) (timerC s) (conns s) (failw s) x (drain s) (str s).
-Definition upd_run s r st pa ps := mksv r st pa ps (qcap s) (qm s) (pendm s) (ctxm s) (rdy s) (cur s) (curQ s) (reqC s) (readyC s) (timerC s) (conns s) (failw s) (cbq s) (drain s) (str s).
+Definition upd_qm s x := mksv (running s) (stopping s) (pumpAlive s) (pumpStuck s) (qcap s) x (pendm s) (ctxm s) (rdy s) (cur s) (curQ s) (reqC s) (readyC s) (timerC s) (conns s) (failw s) (cbq s) (drain s) (removed s) (str s).
+Definition upd_pendm s x := mksv (running s) (stopping s) (pumpAlive s) (pumpStuck s) (qcap s) (qm s) x (ctxm s) (rdy s) (cur s) (curQ s) (reqC s) (readyC s) (timerC s) (conns s) (failw s) (cbq s) (drain s) (removed s) (str s).
+Definition upd_ctxm s x := mksv (running s) (stopping s) (pumpAlive s) (pumpStuck s) (qcap s) (qm s) (pendm s) x (rdy s) (cur s) (curQ s) (reqC s) (readyC s) (timerC s) (conns s) (failw s) (cbq s) (drain s) (removed s) (str s).
+Definition upd_loc s r c cq := mksv (running s) (stopping s) (pumpAlive s) (pumpStuck s) (qcap s) (qm s) (pendm s) (ctxm s) r c cq (reqC s) (readyC s) (timerC s) (conns s) (failw s) (cbq s) (drain s) (removed s) (str s).
+Definition upd_reqC s x := mksv (running s) (stopping s) (pumpAlive s) (pumpStuck s) (qcap s) (qm s) (pendm s) (ctxm s) (rdy s) (cur s) (curQ s) x (readyC s) (timerC s) (conns s) (failw s) (cbq s) (drain s) (removed s) (str s).
+Definition upd_readyC s x := mksv (running s) (stopping s) (pumpAlive s) (pumpStuck s) (qcap s) (qm s) (pendm s) (ctxm s) (rdy s) (cur s) (curQ s) (reqC s) x (timerC s) (conns s) (failw s) (cbq s) (drain s) (removed s) (str s).
+Definition upd_timerC s x := mksv (running s) (stopping s) (pumpAlive s) (pumpStuck s) (qcap s) (qm s) (pendm s) (ctxm s) (rdy s) (cur s) (curQ s) (reqC s) (readyC s) x (conns s) (failw s) (cbq s) (drain s) (removed s) (str s).
+Definition upd_conns s x := mksv (running s) (stopping s) (pumpAlive s) (pumpStuck s) (qcap s) (qm s) (pendm s) (ctxm s) (rdy s) (cur s) (curQ s) (reqC s) (readyC s) (timerC s) x (failw s) (cbq s) (drain s) (removed s) (str s).
+Definition upd_failw s x := mksv (running s) (stopping s) (pumpAlive s) (pumpStuck s) (qcap s) (qm s) (pendm s) (ctxm s) (rdy s) (cur s) (curQ s) (reqC s) (readyC s) (timerC s) (conns s) x (cbq s) (drain s) (removed s) (str s).
+Definition upd_cbq s x := mksv (running s) (stopping s) (pumpAlive s) (pumpStuck s) (qcap s) (qm s) (pendm s) (ctxm s) (rdy s) (cur s) (curQ s) (reqC s) (readyC s) (timerC s) (conns s) (failw s) x (drain s) (removed s) (str s).
+Definition upd_run s r st pa ps := mksv r st pa ps (qcap s) (qm s) (pendm s) (ctxm s) (rdy s) (cur s) (curQ s) (reqC s) (readyC s) (timerC s) (conns s) (failw s) (cbq s) (drain s) (removed s) (str s).
+
+Definition upd_removed s x := mksv (running s) (stopping s) (pumpAlive s) (pumpStuck s) (qcap s) (qm s) (pendm s) (ctxm s) (rdy s) (cur s) (curQ s) (reqC s) (readyC s) (timerC s) (conns s) (failw s) (cbq s) (drain s) x (str s).
 
 Definition qof (s : sv) (c : Z) : option (list Z) := a_get (qm s) c.
 Definition pendof (s : sv) (c : Z) : Z := match a_get (pendm s) c with Some p => p | None => 0 end.
@@ -127,7 +130,9 @@ Inductive slab :=
 
 Definition on_disconnected (s : sv) (c : Z) : sv :=
   (* DeleteClient: Remove queue, token if running; ClearClientPendingRequest; drain callbacks (if installed); app handler *)
-  let s1 := upd_qm s (a_del (qm s) c) in
+  let s0 := upd_qm s (a_del (qm s) c) in
+  (* the session is marked as ended for the pump, which may see the token only after the same id has connected again (repair F13) *)
+  let s1 := upd_removed s0 (c :: del c (removed s0)) in
   let s2 := if running s1 then upd_reqC s1 (reqC s1 ++ [c]) else s1 in
   let s3 := upd_pendm s2 (a_del (pendm s2) c) in
   let s4 := fold_left (fun st cb => semit st (SCb c cb 0 K_DISC)) (cbs_of s3 c) s3 in
@@ -177,7 +182,10 @@ Definition sstep (l : slab) (s : sv) : sv :=
         match reqC s with
         | [] => s
         | c :: rest =>
-            let s1 := upd_reqC s rest in
+            let s0 := upd_reqC s rest in
+            (* a session of this client ended since the last look: its timeout context goes, even if the client has
+               reconnected already and owns a queue again (repair F13) *)
+            let s1 := if mem c (removed s0) then upd_ctxm (upd_removed s0 (del c (removed s0))) (a_del (ctxm s0) c) else s0 in
             match qof s1 c with
             | None => upd_loc (upd_ctxm s1 (a_del (ctxm s1) c)) false c None
             | Some _ =>
